@@ -132,6 +132,9 @@ func (m *chainMachine) bAudit(t *rapid.T) (cmBuilt, bool) {
 		return cmBuilt{fmt.Sprintf("DeleteProviderAttributes(%s,%s,%v)", a.name, p.name, keys), &atypes.MsgDeleteProviderAttributes{Owner: p.bech, Auditor: a.bech, Keys: keys}, a}, true
 	}
 	attrs := m.genAttrs(t, "aattr", 1)
+	if existing != nil && rapid.IntRange(0, 5).Draw(t, "emptyResign") == 0 {
+		attrs = nil // re-sign with an empty attribute list (accepted by ValidateBasic)
+	}
 	if rapid.Bool().Draw(t, "shuffleAttrs") && len(attrs) > 1 {
 		attrs[0], attrs[len(attrs)-1] = attrs[len(attrs)-1], attrs[0]
 	}
@@ -641,6 +644,7 @@ func (m *chainMachine) actions(prof cmProfile) map[string]func(*rapid.T) {
 	add("advance", m.aAdvance)
 	add("marketRound", m.aMarketRound)
 	add("withdrawThenClose", m.aWithdrawThenClose)
+	add("exhaustExactly", m.aExhaustExactly)
 	if prof.weights != nil && prof.weights["boundaryDeploy"] > 0 {
 		add("boundaryDeploy", m.aBoundaryDeploy)
 	}
@@ -843,4 +847,81 @@ func (m *chainMachine) aNearMissBid(t *rapid.T) {
 	m.label(fmt.Sprintf("near-miss-defect-%d", defect))
 	m.deliver(fmt.Sprintf("CreateBid(%s,%s,price=%d)[near-miss %d]", m.bidName(mtypes.MakeBidID(o.OrderID, p.addr)), p.name, max, defect),
 		&mtypes.MsgCreateBid{Order: o.OrderID, Provider: p.bech, Price: cmCoin(max), Deposit: cmCoin(m.params.bidMin)}, p)
+}
+
+
+// aExhaustExactly: constructive macro for "the balance hits zero exactly": top the
+// deployment account up to a multiple of its total rate, advance to the block where it
+// is exactly exhausted, let a provider withdraw there (account open with balance 0,
+// payment balance 0), advance a little and trigger one more settlement.
+func (m *chainMachine) aExhaustExactly(t *rapid.T) {
+	type cand struct {
+		acc  etypes.Account
+		rate sdk.Int
+		pays []etypes.Payment
+	}
+	var cands []cand
+	for _, a := range m.snap.accounts {
+		if a.State != etypes.AccountOpen || a.ID.Scope != dtypes.EscrowScope {
+			continue
+		}
+		c := cand{acc: a, rate: sdk.ZeroInt()}
+		for _, p := range m.snap.payments {
+			if p.AccountID == a.ID && p.State == etypes.PaymentOpen {
+				c.rate = c.rate.Add(p.Rate.Amount)
+				c.pays = append(c.pays, p)
+			}
+		}
+		if c.rate.IsPositive() {
+			cands = append(cands, c)
+		}
+	}
+	if len(cands) == 0 {
+		t.Skip("no funded account with open payments")
+	}
+	c := cands[m.pick(t, "account", len(cands))]
+	did, ok := dtypes.DeploymentIDFromEscrowAccount(c.acc.ID)
+	if !ok {
+		t.Skip("not a deployment account")
+	}
+	tenant := m.byAddr[did.Owner]
+	// what will be left at the current height after settling
+	elapsed := sdk.NewInt(m.height - c.acc.SettledAt)
+	bal := c.acc.Balance.Amount.Sub(c.rate.Mul(elapsed))
+	if !bal.IsPositive() {
+		t.Skip("already exhausted")
+	}
+	if rem := bal.Mod(c.rate); !rem.IsZero() && rapid.IntRange(0, 3).Draw(t, "topUp") > 0 {
+		add := c.rate.Sub(rem)
+		m.deliver(fmt.Sprintf("DepositDeployment(%s/%d,%s)[to a multiple of the rate]", tenant.name, did.DSeq, add), &dtypes.MsgDepositDeployment{ID: did, Amount: sdk.NewCoin(cmDenom, add)}, tenant)
+		bal = bal.Add(add)
+	}
+	k := bal.Quo(c.rate)
+	if !k.IsInt64() || k.Int64() < 1 || k.Int64() > cmMaxGap {
+		t.Skip("exhaustion too far away")
+	}
+	m.label("exhaust-exactly")
+	m.advance(k.Int64())
+	p := c.pays[m.pick(t, "payee", len(c.pays))]
+	lid, ok := mtypes.LeaseIDFromEscrowAccount(p.AccountID, p.PaymentID)
+	if !ok {
+		return
+	}
+	name := m.bidName(mtypes.BidID(lid))
+	if rapid.IntRange(0, 3).Draw(t, "withdrawAtZero") > 0 {
+		m.deliver("WithdrawLease("+name+")[at exact exhaustion]", &mtypes.MsgWithdrawLease{LeaseID: lid}, m.byAddr[lid.Provider])
+	}
+	if g := rapid.IntRange(0, 2).Draw(t, "afterGap"); g > 0 {
+		m.advance(int64(g))
+	}
+	switch rapid.IntRange(0, 3).Draw(t, "trigger") {
+	case 0:
+		m.deliver("WithdrawLease("+name+")", &mtypes.MsgWithdrawLease{LeaseID: lid}, m.byAddr[lid.Provider])
+	case 1:
+		m.deliver("CloseLease("+name+")", &mtypes.MsgCloseLease{LeaseID: lid}, tenant)
+	case 2:
+		m.deliver(fmt.Sprintf("CloseDeployment(%s/%d)", tenant.name, did.DSeq), &dtypes.MsgCloseDeployment{ID: did}, tenant)
+	default:
+		m.deliver("CloseBid("+name+")", &mtypes.MsgCloseBid{BidID: mtypes.BidID(lid)}, m.byAddr[lid.Provider])
+	}
 }
